@@ -3,6 +3,7 @@ package rules
 import (
 	"fmt"
 	"go/token"
+	"go/types"
 	"strings"
 
 	"golang.org/x/tools/go/ssa"
@@ -29,6 +30,77 @@ func init() {
 // goroutines that live as long as the process
 var par15ProcessLifetime = map[string]string{
 	"lib/cli.commandAction": "the signal watcher: waits for a signal for the whole run and is not joined by design",
+}
+
+// par15ListedAnchorOf: host is a private helper of a listed function — a declared
+// function of the same package all of whose callers are static calls made by the
+// listed function, by its closures, or by such a helper again (depth levels).
+// Returns the name of the listed function, or "".
+func par15ListedAnchorOf(p *core.Prog, host *ssa.Function, depth int) string {
+	if host == nil || host.Parent() != nil || host.Blocks == nil || depth <= 0 {
+		return ""
+	}
+	edges := p.RealCallers(host)
+	if len(edges) == 0 {
+		return ""
+	}
+	anchor := ""
+	for _, e := range edges {
+		caller := e.Caller.Func
+		if e.Site == nil || core.StaticCallee(e.Site) != host || core.FnPkg(caller) != core.FnPkg(host) {
+			return ""
+		}
+		for caller.Parent() != nil {
+			caller = caller.Parent()
+		}
+		a := ""
+		if _, listed := par15ProcessLifetime[p.Name(caller)]; listed {
+			a = p.Name(caller)
+		} else {
+			a = par15ListedAnchorOf(p, caller, depth-1)
+		}
+		if a == "" || (anchor != "" && a != anchor) {
+			return ""
+		}
+		anchor = a
+	}
+	return anchor
+}
+
+// par15IsSignalWatcher: the goroutine started by g in fn receives (`<-ch` or a
+// select case) from a channel that fn itself registered with os/signal.Notify.
+func par15IsSignalWatcher(p *core.Prog, fn *ssa.Function, g *ssa.Go) bool {
+	k := core.StaticCallee(g)
+	if k == nil || k.Blocks == nil {
+		return false
+	}
+	for _, call := range p.CallsNamed(fn, "os/signal.Notify") {
+		nc, ok := call.(*ssa.Call)
+		if !ok || len(nc.Call.Args) < 1 {
+			continue
+		}
+		cell := core.Addr(core.Strip(nc.Call.Args[0]))
+		if cell == nil {
+			cell = core.Strip(nc.Call.Args[0])
+		}
+		for _, b := range k.Blocks {
+			for _, in := range b.Instrs {
+				switch x := in.(type) {
+				case *ssa.UnOp:
+					if x.Op == token.ARROW && txn2SameOuter(k, g, x.X, cell) {
+						return true
+					}
+				case *ssa.Select:
+					for _, st := range x.States {
+						if st.Dir == types.RecvOnly && txn2SameOuter(k, g, st.Chan, cell) {
+							return true
+						}
+					}
+				}
+			}
+		}
+	}
+	return false
 }
 
 func rulePar15(c *Ctx) {
@@ -91,6 +163,12 @@ func rulePar15(c *Ctx) {
 				key := c.KeyAt(fn, fmt.Sprintf("go statement #%d is joined on every path", k))
 				if why, ok := par15ProcessLifetime[c.P.Name(host)]; ok {
 					c.Ok(key, c.Pos(g), "listed: "+why)
+					continue
+				}
+				// the listed watcher moved into a private helper of the listed function:
+				// the exception follows it, but only for the goroutine that is the watcher
+				if anchor := par15ListedAnchorOf(c.P, host, 2); anchor != "" && par15IsSignalWatcher(c.P, fn, g) {
+					c.Ok(key, c.Pos(g), "listed: "+par15ProcessLifetime[anchor]+" (started in "+c.P.Name(host)+", a helper that only "+anchor+" calls; the goroutine receives from the channel this function gave to signal.Notify)")
 					continue
 				}
 				var leak ssa.Instruction
